@@ -1,15 +1,15 @@
 SPECIFICATION Spec
 CONSTANTS
-  Secrets = {"s1", "s2"}
+  Secrets = {"s1"}
   Phantoms = {"p4", "p6"}
-  Transports = {"min", "prefix", "obfs4"}
+  Transports = {"min", "prefix"}
   KeyMode = "ident"
   TU = 2
   TA = 5
   MaxAge = 6
   MaxCount = 2
   TickSteps = {1, 3}
-  MaxTracked = 2
+  MaxTracked = 3
 VIEW view
 CONSTRAINT Bounded
 INVARIANTS TypeOK OneRecordPerRegistration PostSweepExact ExpiredNeverMatchesAfterSweep
